@@ -216,7 +216,12 @@ def run_tlc(
         if "Deadlock reached" in out:
             res.violated = "Deadlock"
             return res
-        tail = "\n".join(out.splitlines()[-40:])
+        lines = out.splitlines()
+        errs = []
+        for i, ln in enumerate(lines):
+            if ln.startswith("Error:") or "Exception" in ln:
+                errs.extend(lines[i : i + 6])
+        tail = "\n".join(errs[:40] + ["..."] + lines[-12:])
         raise MachineryError(
             f"TLC failed on {module} (rc={proc.returncode}):\n{tail}\n{proc.stderr[-2000:]}"
         )
